@@ -278,7 +278,6 @@ pub fn show_vals(vs: &[Val]) -> String {
     vs.iter().map(|v| v.show()).collect::<Vec<_>>().join(",")
 }
 
-pub const D10_CLASS: &str = "seed_struct_slots_exceed_16";
 
 // ------------------------------------------------------------------------------------------------
 // executor
@@ -392,40 +391,51 @@ impl Exec {
         None
     }
 
+    /// The seed list every path hands to the runtime next to the bump, as the MODEL sees it:
+    /// `seeds()` (declared seeds + placeholder when the impl has one) with a trailing empty seed
+    /// dropped (`without_bump_placeholder`; `seeds_with_bump` replaces the same slot).
+    fn eff_seeds(&self, vals: &[Val]) -> Option<Vec<Vec<u8>>> {
+        let shape = self.shape.as_ref()?;
+        let mut e = expected_seeds(shape, vals);
+        if shape.placeholder {
+            e.push(vec![]);
+        }
+        if e.last().is_some_and(|l| l.is_empty()) {
+            e.pop();
+        }
+        Some(e)
+    }
+
     /// The first hash-oracle entry the model needs for this op that the table lacks (the op is
-    /// answered `bad-op` while one is missing). Mirrors the slot counts of the four code paths:
-    /// `find` paths pass `seeds()` (empty slot included), the bump validation replaces it, the
-    /// client `create` pushes after it.
+    /// answered `bad-op` while one is missing).
     pub fn first_missing(&self, toks: &[&str]) -> Option<(Vec<u8>, [u8; 32])> {
-        let e = self.e_seeds()?;
-        let mut with_empty = e.clone();
-        with_empty.push(vec![]);
+        let eff = self.eff_seeds(self.vals.as_ref()?)?;
         match toks {
             ["vseeds"] => {
                 if self.exp_recorded.is_some() || self.key.is_none() {
                     return None;
                 }
-                self.first_missing_find(&with_empty, &self.seed_prog()?)
+                self.first_missing_find(&eff, &self.seed_prog()?)
             }
             ["vbump", b] => {
                 if self.exp_recorded.is_some() || self.key.is_none() {
                     return None;
                 }
                 let b = parse_bump(b)?;
-                let mut s = e;
+                let mut s = eff;
                 s.push(vec![b]);
                 self.first_missing_create(&s, &self.seed_prog()?)
             }
             ["signer"] => {
                 let (v, b) = self.exp_recorded.as_ref()?;
-                let mut s = expected_seeds(self.shape.as_ref()?, v);
+                let mut s = self.eff_seeds(v)?;
                 s.push(vec![*b]);
                 self.first_missing_create(&s, &self.seed_prog()?)
             }
-            ["cfind", p] => self.first_missing_find(&with_empty, &prog_bytes(parse_sel(p)?)),
+            ["cfind", p] => self.first_missing_find(&eff, &prog_bytes(parse_sel(p)?)),
             ["ccreate", p, b] => {
                 let b = parse_bump(b)?;
-                let mut s = with_empty;
+                let mut s = eff;
                 s.push(vec![b]);
                 self.first_missing_create(&s, &prog_bytes(parse_sel(p)?))
             }
@@ -448,11 +458,6 @@ impl Exec {
     /// After an oracle failure on a validation: adopt the implementation's recorded state.
     fn resync(&mut self) {
         self.exp_recorded = self.obj.as_ref().and_then(|o| o.access()).and_then(|r| r.ok());
-    }
-
-    /// slots exceed the runtime limit only because of the extra empty slot (class D10)
-    fn d10(&self) -> bool {
-        self.shape.as_ref().map(|s| s.n_user() + 2 > 16 && s.n_user() + 1 <= 16).unwrap_or(false)
     }
 
     pub fn step(&mut self, line: &str) -> StepOut {
@@ -490,7 +495,8 @@ impl Exec {
                 self.rebuild_obj();
                 out("ok")
             }
-            ["struct", sid, c, tys] => {
+            ["struct", sid, c, tys] | ["struct", sid, c, tys, "noslot"] => {
+                let placeholder = toks.len() == 4;
                 let Ok(n) = sid.parse::<usize>() else { return bad() };
                 if n.to_string() != *sid {
                     return bad();
@@ -506,7 +512,7 @@ impl Exec {
                 let tys: Option<Vec<Ty>> =
                     if *tys == "-" { Some(vec![]) } else { tys.split(',').map(Ty::parse).collect() };
                 let Some(tys) = tys else { return bad() };
-                let claimed = Shape { sid: n, cst, tys };
+                let claimed = Shape { sid: n, cst, tys, placeholder };
                 if !self.shapes.contains(&claimed) {
                     return bad();
                 }
@@ -543,7 +549,9 @@ impl Exec {
                     }
                 };
                 let mut e = expected_seeds(shape, vals);
-                e.push(vec![]);
+                if shape.placeholder {
+                    e.push(vec![]);
+                }
                 match obj.seeds() {
                     Some(Ok(ss)) => {
                         let mut o = out(format!("ok {}", show_seeds(&ss)));
@@ -596,7 +604,7 @@ impl Exec {
                     }
                 };
                 if expect_ok != (ans == "ok") {
-                    let class = if self.d10() { D10_CLASS } else { "seeds_validation_wrong" };
+                    let class = "seeds_validation_wrong";
                     o.fails.push((class.into(), format!("vseeds answered {ans}, canonical-address oracle expects accept={expect_ok}")));
                     // continue from what the implementation actually did (no cascading reports)
                     self.resync();
@@ -713,7 +721,7 @@ impl Exec {
                     Err(_) => out("panic"),
                 };
                 if r.ok() != expect {
-                    let class = if self.d10() { D10_CLASS } else { "client_find_wrong" };
+                    let class = "client_find_wrong";
                     o.fails.push((class.into(), format!("client find_program_address answered {}, plain find gives {:?}", o.answer, expect.map(|(a, b)| (hex(&a), b)))));
                 }
                 o
@@ -743,7 +751,7 @@ impl Exec {
                     Err(_) => (out("panic"), Err("panic".into())),
                 };
                 if got != expect {
-                    let class = if self.d10() { D10_CLASS } else { "client_create_wrong" };
+                    let class = "client_create_wrong";
                     o.fails.push((class.into(), format!("client create_program_address answered {}, plain create gives {:?}", o.answer, expect.map(|a| hex(&a)))));
                 }
                 o
